@@ -604,44 +604,45 @@ Record mon_st := { m_pclosed : bool; m_eclosed : bool; m_bad : bool;
                    m_first : option err;     (* first terminal error the driver's actions determine (while live) *)
                    m_ctx : bool;             (* caller ctx cancelled at all *)
                    m_errs : list err;
-                   m_bh : nat }.               (* block-hook errors the driver injected (delivered by the executor as ErrHook) *)
+                   m_bh : nat;               (* block-hook errors the driver injected (delivered by the executor as ErrHook) *)
+                   m_ctxl : bool }.          (* caller ctx cancelled while the request was live and the error channel open *)
 Definition mon_step (m : mon_st) (o : obs) : mon_st :=
   match o with
   | OEnv LEnvCtxCancel =>
       Build_mon_st (m_pclosed m) (m_eclosed m) (m_bad m) (m_live m) (m_cancelled_live m || m_live m) (m_cancel_after m)
-                   (m_cc m) (m_first m) true (m_errs m) (m_bh m)
+                   (m_cc m) (m_first m) true (m_errs m) (m_bh m) (m_ctxl m || (m_live m && negb (m_eclosed m)))
   | OEnv LEnvApiCancel =>
       Build_mon_st (m_pclosed m) (m_eclosed m) (m_bad m) (m_live m) (m_cancelled_live m || m_live m) (m_cancel_after m)
-                   (m_cc m) (match m_first m with None => if m_live m then Some ErrCC else None | x => x end) (m_ctx m) (m_errs m) (m_bh m)
+                   (m_cc m) (match m_first m with None => if m_live m then Some ErrCC else None | x => x end) (m_ctx m) (m_errs m) (m_bh m) (m_ctxl m)
   | OEnv (LEnvResp r) =>
       let f := match m_first m with
                | None => if m_live m then (if r_hookerr r then Some ErrHook
                                            else match r_status r with SFail n => Some (ErrStatus n) | _ => None end)
                          else None
                | x => x end in
-      Build_mon_st (m_pclosed m) (m_eclosed m) (m_bad m) (m_live m) (m_cancelled_live m) (m_cancel_after m) (m_cc m) f (m_ctx m) (m_errs m) (m_bh m)
-  | ORecvP RGot => Build_mon_st (m_pclosed m) (m_eclosed m) (m_bad m || m_pclosed m) (m_live m) (m_cancelled_live m) (m_cancel_after m) (m_cc m) (m_first m) (m_ctx m) (m_errs m) (m_bh m)
-  | ORecvP RClosed => Build_mon_st true (m_eclosed m) (m_bad m) (m_live m) (m_cancelled_live m) (m_cancel_after m) (m_cc m) (m_first m) (m_ctx m) (m_errs m) (m_bh m)
-  | ORecvP RNothing => Build_mon_st (m_pclosed m) (m_eclosed m) (m_bad m || m_pclosed m) (m_live m) (m_cancelled_live m) (m_cancel_after m) (m_cc m) (m_first m) (m_ctx m) (m_errs m) (m_bh m)
+      Build_mon_st (m_pclosed m) (m_eclosed m) (m_bad m) (m_live m) (m_cancelled_live m) (m_cancel_after m) (m_cc m) f (m_ctx m) (m_errs m) (m_bh m) (m_ctxl m)
+  | ORecvP RGot => Build_mon_st (m_pclosed m) (m_eclosed m) (m_bad m || m_pclosed m) (m_live m) (m_cancelled_live m) (m_cancel_after m) (m_cc m) (m_first m) (m_ctx m) (m_errs m) (m_bh m) (m_ctxl m)
+  | ORecvP RClosed => Build_mon_st true (m_eclosed m) (m_bad m) (m_live m) (m_cancelled_live m) (m_cancel_after m) (m_cc m) (m_first m) (m_ctx m) (m_errs m) (m_bh m) (m_ctxl m)
+  | ORecvP RNothing => Build_mon_st (m_pclosed m) (m_eclosed m) (m_bad m || m_pclosed m) (m_live m) (m_cancelled_live m) (m_cancel_after m) (m_cc m) (m_first m) (m_ctx m) (m_errs m) (m_bh m) (m_ctxl m)
   | ORecvE RGot e => Build_mon_st (m_pclosed m) (m_eclosed m) (m_bad m || m_eclosed m) (m_live m) (m_cancelled_live m) (m_cancel_after m)
-                       (match e with ErrCC => S (m_cc m) | _ => m_cc m end) (m_first m) (m_ctx m) (m_errs m ++ [e]) (m_bh m)
-  | ORecvE RClosed _ => Build_mon_st (m_pclosed m) true (m_bad m) (m_live m) (m_cancelled_live m) (m_cancel_after m) (m_cc m) (m_first m) (m_ctx m) (m_errs m) (m_bh m)
-  | ORecvE RNothing _ => Build_mon_st (m_pclosed m) (m_eclosed m) (m_bad m || m_eclosed m) (m_live m) (m_cancelled_live m) (m_cancel_after m) (m_cc m) (m_first m) (m_ctx m) (m_errs m) (m_bh m)
-  | OSent OCancel => Build_mon_st (m_pclosed m) (m_eclosed m) (m_bad m) (m_live m) (m_cancelled_live m) (m_cancel_after m || m_cancelled_live m) (m_cc m) (m_first m) (m_ctx m) (m_errs m) (m_bh m)
-  | OQuiet _ tbl => Build_mon_st (m_pclosed m) (m_eclosed m) (m_bad m) (match tbl with Some _ => true | None => false end) (m_cancelled_live m) (m_cancel_after m) (m_cc m) (m_first m) (m_ctx m) (m_errs m) (m_bh m)
+                       (match e with ErrCC => S (m_cc m) | _ => m_cc m end) (m_first m) (m_ctx m) (m_errs m ++ [e]) (m_bh m) (m_ctxl m)
+  | ORecvE RClosed _ => Build_mon_st (m_pclosed m) true (m_bad m) (m_live m) (m_cancelled_live m) (m_cancel_after m) (m_cc m) (m_first m) (m_ctx m) (m_errs m) (m_bh m) (m_ctxl m)
+  | ORecvE RNothing _ => Build_mon_st (m_pclosed m) (m_eclosed m) (m_bad m || m_eclosed m) (m_live m) (m_cancelled_live m) (m_cancel_after m) (m_cc m) (m_first m) (m_ctx m) (m_errs m) (m_bh m) (m_ctxl m)
+  | OSent OCancel => Build_mon_st (m_pclosed m) (m_eclosed m) (m_bad m) (m_live m) (m_cancelled_live m) (m_cancel_after m || m_cancelled_live m) (m_cc m) (m_first m) (m_ctx m) (m_errs m) (m_bh m) (m_ctxl m)
+  | OQuiet _ tbl => Build_mon_st (m_pclosed m) (m_eclosed m) (m_bad m) (match tbl with Some _ => true | None => false end) (m_cancelled_live m) (m_cancel_after m) (m_cc m) (m_first m) (m_ctx m) (m_errs m) (m_bh m) (m_ctxl m)
   | OExecGo GHook CHookErr =>
-      Build_mon_st (m_pclosed m) (m_eclosed m) (m_bad m) (m_live m) (m_cancelled_live m) (m_cancel_after m) (m_cc m) (m_first m) (m_ctx m) (m_errs m) (S (m_bh m))
+      Build_mon_st (m_pclosed m) (m_eclosed m) (m_bad m) (m_live m) (m_cancelled_live m) (m_cancel_after m) (m_cc m) (m_first m) (m_ctx m) (m_errs m) (S (m_bh m)) (m_ctxl m)
   | _ => m
   end.
 Definition is_terminal_class (e : err) : bool :=      (* errors that only terminateRequest / the collector produce *)
   match e with ErrCC | ErrStatus _ => true | _ => false end.
 Definition count_err (e : err) (l : list err) : nat := length (filter (err_eqb e) l).
 Definition c04_monitor (tr : list obs) : bool :=
-  let m := fold_left mon_step tr (Build_mon_st false false false true false false 0 None false [] 0) in
+  let m := fold_left mon_step tr (Build_mon_st false false false true false false 0 None false [] 0 false) in
   negb (m_bad m) && m_pclosed m && m_eclosed m &&
   (* caller cancelled while live: a cancel went to the responder; context cancel: ClientCancelled delivered *)
   (negb (m_cancelled_live m) || m_cancel_after m) &&
-  (negb (m_ctx m && m_cancelled_live m) || negb (Nat.eqb (m_cc m) 0)) &&
+  (negb (m_ctxl m) || negb (Nat.eqb (m_cc m) 0)) &&
   (* without a context cancel: the ClientCancelled / status errors delivered are exactly [the first terminal
      error]; hook errors: the response-hook error once if it is the first terminal error, plus at most one per
      block-hook error the driver injected (those are sent by the executor) *)
